@@ -3,6 +3,7 @@ CONSTANTS
   K = 2
   Kinds = {"op"}
   Emit = FALSE
+  RepLevel = 2
   Bug = "op_drops_preds_flag"
 INVARIANTS InvOp
 CHECK_DEADLOCK FALSE
